@@ -8,6 +8,7 @@
     (erasedirs (features…)) → (directives …) of `erase S F`
     (view (features…))    → (view (types …) (query Q) (mutation M|-) (type N …)… (lk N …)… (gf T f …)… (sp P T b)…)
                             the accessors of `view S F` over the universe of S's type names + Nope + __Type
+    (resolve (features…) A (claimed…)) → the object type an A-typed value claimed by these types resolves to, or -
     (introspect (features…) erased|full <sels>)  → JSON text of the model's introspection answer
     (walk (features…) erased|full <doc>)         → events of the model's selection walk
   Type references travel as strings: Name, [T], T!.
@@ -211,6 +212,10 @@ def handle (st : St) (line : String) : St × String :=
     match atoms fs with
     | some f => (st, toString (viewSexp st.schema (view st.schema (featsOf f))))
     | none => (st, "bad-op")
+  | some (.list [.atom "resolve", fs, .atom abstract, claimed]) =>
+    match atoms fs, atoms claimed with
+    | some f, some c => (st, ((view st.schema (featsOf f)).resolveType abstract c).getD "-")
+    | _, _ => (st, "bad-op")
   | some (.list [.atom "introspect", fs, .atom which, q]) =>
     match atoms fs, parseSels q with
     | some f, some sels =>
